@@ -41,6 +41,11 @@ def grammar_tags(g):
 def _oracle(args, obs):
     prods, v, words = args
     g = enc.ref_cfg(prods, v)
+    return _judge_membership(g, words, obs, len(prods))
+
+
+def _judge_membership(g, words, obs, nprods):
+    prods = [None] * nprods
     tags = grammar_tags(g)
     L = max([len(w) for w in words] + [0])
     lang = OC.words_upto(g, L)
@@ -124,6 +129,57 @@ def c08_word(t: P2, p: int, w: Tuple[int, int, int], wlen: int) -> bool:
     return _run("c08_word", (t, p, w, wlen), prods, 2, [word])
 
 
+def c08_chain(sd: bool, aa: bool, bmask: int, cmask: int) -> bool:
+    """
+    pre: 0 <= bmask < 16 and 0 <= cmask < 8
+    pre: pinned(sd=sd, aa=aa, bmask=bmask)
+    post: _
+    """
+    from vlib.conds import chain
+    raw = (sd, aa, bmask, cmask)
+    prods = chain.decode_chain(sd, aa, bmask, cmask)
+    words = [[], ["a"], ["d"], ["a", "d"], ["a", "a"], ["a", "a", "d"], ["a", "a", "a", "d"], ["d", "a"], ["z"]]
+    chx.enter("c08_chain", raw)
+    g = chain.build(prods)
+    obs = {"contains": chx.guarded(lambda: [bool(g.contains(w)) for w in words]),
+           "in": chx.guarded(lambda: [bool(w in g) for w in words[:4]]),
+           "generate_epsilon": chx.guarded(lambda: chain.build(prods).generate_epsilon())}
+    return chx.judge("C08", "c08_chain", raw, (prods, 4, words), obs, _chain_oracle)
+
+
+def _chain_oracle(args, obs):
+    from vlib.conds import chain
+    prods, v, words = args
+    g = chain.ref(prods)
+    return _judge_membership(g, words, obs, len(prods))
+
+
+def c08_declared(t: P2, p: int, extra: int) -> bool:
+    """
+    pre: 0 <= p <= 1 and 0 <= extra < 4
+    pre: cfg_canonical(t, p, 2, 2, 2)
+    pre: pinned(p=p, extra=extra)
+    post: _
+    """
+    raw = (t, p, extra)
+    prods = enc.decode_cfg(t, p, 2, 2, 2)
+    ex = enc.pick(extra, 4)
+    from pyformlang.cfg import CFG, Variable, Terminal, Production
+    chx.enter("c08_declared", raw)
+    ps = set()
+    for h, body in prods:
+        ps.add(Production(Variable(enc.VARS[h]), [Variable(enc.VARS[c]) if c < 2 else Terminal(enc.TERMS[c - 2])
+                                                   for c in body]))
+    # symbols declared in the constructor but (possibly) used by no production
+    variables = {Variable("S"), Variable("A")} if ex & 1 else {Variable("S")}
+    terminals = {Terminal("a"), Terminal("b")} if ex & 2 else set()
+    g = CFG(variables, terminals, Variable("S"), ps)
+    obs = {"contains": chx.guarded(lambda: [bool(g.contains(w)) for w in WORDS2]),
+           "in": chx.guarded(lambda: [bool(w in g) for w in WORDS2[:4]]),
+           "generate_epsilon": chx.guarded(g.generate_epsilon)}
+    return chx.judge("C08", "c08_declared", raw, (prods, 2, WORDS2), obs, _oracle)
+
+
 def _sh_p2(tier):
     return [{"p": 0}, {"p": 1}] + product_pins(p=[2], h0=[0, 1], l0=[0, 1, 2])
 
@@ -160,6 +216,14 @@ CONDS = [
     Cond("C08", c08_b3, _sh_b3,
          {"thorough": "1-2 productions, the first with a body of length 3 (binarisation path), second any body <=3"},
          FUNCS, RULE, tiers=("thorough",)),
+    Cond("C08", c08_chain, lambda tier: __import__("vlib.conds.chain", fromlist=["x"]).shards(tier),
+         {"quick": "the 512 'nullable chain' grammars S->A[d], A->B[a], B->subset{eps,C,a,CC}, C->subset{eps,a,B} "
+                   "(4 variables): contains on 9 words, generate_epsilon on a fresh object", "thorough": "same"},
+         FUNCS, RULE),
+    Cond("C08", c08_declared, lambda tier: product_pins(p=[0, 1], extra=[0, 1, 2, 3]),
+         {"quick": "grammars with 0-1 productions whose variables / terminals are (also) declared through the "
+                   "constructor arguments, incl. declared terminals that no production uses", "thorough": "same"},
+         FUNCS, RULE),
     Cond("C08", c08_word, _sh_word,
          {"quick": "2 productions (first head S, body length 1-2) x one symbolic word of length 2-3 over {a,b,z} on a "
                    "fresh grammar object (no cached normal form)",
